@@ -714,4 +714,17 @@ func ntRawServer(c *Case, tr *Trace) bool {
 	return n >= 2
 }
 
+func init() {
+	addParts("C16", part{name: "app_extra_send", gen: genC16App, monitors: []Monitor{monC16App}, labels: commonLabels, nontrivial: ntC16App, quick: 400, thorough: 10000})
+}
+
+func init() {
+	register(&checkDef{prop: "C11", parts: []part{
+		{name: "c11_matrix", gen: genC11Matrix, monitors: []Monitor{monC11Matrix}, labels: labelsC11, quick: 300, thorough: 6000},
+		{name: "c11_legacy_client", gen: genC11LegacyClient, monitors: []Monitor{monC11LegacyClient}, labels: labelsRaw, quick: 300, thorough: 6000},
+		{name: "c11_settings", gen: genC11Settings, monitors: []Monitor{monC11Settings}, labels: labelsC11, nontrivial: ntC11Settings, quick: 600, thorough: 15000},
+	},
+		rule: "part c11_matrix: the full matrix {client, server} x {flow control enabled, disabled, legacy} x {forward, reverse} with one RPC of every shape, wire-tap clauses (window_update / revision one iff both advertise and neither disabled; nothing revision-one towards a peer that did not advertise) and completion of every RPC; part c11_legacy_client: a frame-level revision-zero reference client against the real server; part c11_settings: a raw server presenting generated settings (revision lists incl. empty, duplicates, unknown 2/7/-1; any window; wrong stream id; wrong first frame; stream end before settings) judged by a model of the negotiation (highest common revision, empty = revision zero, otherwise the tunnel fails with an error at the drained point after Start); non-trivial (settings part) = anything but the stock settings message"})
+}
+
 var _ = strings.Join
